@@ -65,6 +65,7 @@ type Outcome struct {
 	Kind  string `json:"kind,omitempty"` // "", liberr, foreign, panic
 	Msg   string `json:"msg,omitempty"`
 	Panic string `json:"panic,omitempty"`
+	File  string `json:"file,omitempty"` // the file the error names (library errors that have one)
 }
 
 type libErr interface {
@@ -80,7 +81,11 @@ func outcomeOf(err error) Outcome {
 	}
 	var le libErr
 	if asLib(err, &le) {
-		return Outcome{Code: le.ErrCode(), Pos: int(le.Position()), Kind: "liberr", Msg: le.Message()}
+		o := Outcome{Code: le.ErrCode(), Pos: int(le.Position()), Kind: "liberr", Msg: le.Message()}
+		if fn, ok := le.(interface{ Filename() string }); ok {
+			o.File = fn.Filename()
+		}
+		return o
 	}
 	if ve, ok := err.(interface {
 		ErrCode() int
